@@ -48,6 +48,14 @@ theorem bind_ne_fuel {α β : Type} (r : Res α) (f : α → Res β) (h1 : r ≠
   | unmodelled => simp [Res.bind]
   | fuel => exact absurd rfl h1
 
+theorem bind_eq_ok {α β : Type} (r : Res α) (f : α → Res β) (b : β) (hb : r.bind f = .ok b) :
+    ∃ a, r = .ok a ∧ f a = .ok b := by
+  cases r with
+  | ok a => exact ⟨a, rfl, hb⟩
+  | err e => simp [Res.bind] at hb
+  | unmodelled => simp [Res.bind] at hb
+  | fuel => simp [Res.bind] at hb
+
 theorem need_pos (h : Host) (cfg : Cfg) (c : Call) : 1 ≤ need h cfg c := by
   cases c with
   | mount dest src n below => simp only [need]; split <;> simp [big]
@@ -341,7 +349,7 @@ theorem walk_ne_unmodelled (h : Host) (cfg : Cfg) (hs : supported cfg = true) :
         · split
           · simp
           · exact ih _ _
-        · simp only; split
+        · split
           · simp
           · exact ih _ _
         · simp
